@@ -221,6 +221,12 @@ func ruleLexer(c *Ctx) {
 			iObj = p.objOf(inc.X)
 		}
 	}
+	if n := len(loops[0].Body.List); iObj == nil && n > 0 {
+		// `for cond { ...; i++ }`
+		if inc, ok := loops[0].Body.List[n-1].(*ast.IncDecStmt); ok && inc.Tok == token.INC {
+			iObj = p.objOf(inc.X)
+		}
+	}
 	if iObj == nil {
 		c.undecided("lex.shape", fd, "index variable of the scanning loops not found", props...)
 		return
